@@ -231,7 +231,8 @@ func C18(t Tier) int {
 			}
 		}
 	}
-	for _, l := range []int{256, 257, 511, 512, 65536} {
+	// oversize lengths incl. those whose low 8 / low 16 bits look like a legal length (truncating conversions)
+	for _, l := range []int{256, 257, 511, 512, 65535, 65536, 65537, 65606, 65791, 65792, 131072, 196628, 1 << 24, 1<<24 + 7} {
 		for pos := 0; pos < 3; pos++ {
 			tp := [][]byte{[]byte("a"), []byte("b"), []byte("c")}
 			tp[pos] = bytes.Repeat([]byte{0x61}, l)
